@@ -298,7 +298,7 @@ def geometry_argument(argument_string: str) -> BaseGeometry:
         >>> print(options.bounds)
         POLYGON (( 0 1, 1 0, 2 1, 1 2, 0 1 ))
     """
-    bounds_match = bounds_re.match(argument_string)
+    bounds_match = bounds_re.fullmatch(argument_string)
     if bounds_match is not None:
         try:
             return box(*map(float, bounds_match.groups()))
@@ -351,7 +351,7 @@ def bounds_argument(bounds_string: str) -> BaseGeometry:
         >>> print(options.bounds)
         POLYGON (( 3 4, 1 4, 1 2, 3 2, 3 4 ))
     """
-    match = bounds_re.match(bounds_string)
+    match = bounds_re.fullmatch(bounds_string)
     if match is not None:
         try:
             return box(*map(float, match.groups()))
